@@ -349,7 +349,7 @@ def legal_scenarios(rng, thorough, prefix="L"):
                      "r:2:%d" % (nb - 2), "w:1:3:13", "r:4:0", "r:1:%d" % r, "w:%d:2:14" % r, "r:3:%d" % r, "mu", "gt", "r:2:0",
                      "w:%d:4:15" % (nb - 4), "mu", "r:4:%d" % (nb - 4), "r:0:0", "w:0:0:1"]
             scns.append(Scn("%s%d" % (prefix, n), crc, 50, calls, kind=kind, csd=csd, memseed=3 + n, tseed=100 + n, tag="script")); n += 1
-    nrand = 500 if thorough else 14
+    nrand = 2000 if thorough else 14
     for _ in range(nrand):
         kind = rng.choice(KINDS); crc = rng.below(2)
         csd = csd_for(kind, rng)
